@@ -8,7 +8,8 @@
 
 use super::c06::{arg_for, sample_utxo};
 use super::c13;
-use crate::common::canon::{canon_tir_sums as canon_tir, to_json, unresolved};
+use crate::common::canon::{canon_tx_sums as canon_tir, unresolved_tx as unresolved};
+use crate::common::shape::tx as to_json;
 use crate::common::pipeline::{compiler, lower_source, PP};
 use crate::engine::{hash64, panics, Outcome, Prop, Sink, Tier, Violation};
 use crate::gen::tirgen::{self, Probe, TreeId};
